@@ -132,35 +132,12 @@ Theorem C15_message_key_path : forall (s : bytes) (e : perr) (at_ : option N),
 Proof. exact key_path_message. Qed.
 Print Assumptions C15_message_key_path.
 
-(* Key::from_str (one simple key): every rejection has a message PROVIDED the input starts with
-   a byte a simple key can start with (quotation mark, apostrophe, unquoted-key character); no
-   bare-CR premise is needed. *)
+(* Key::from_str (one simple key): every rejection has a message; no side condition
+   (`simple_key` carries the context Label("key") around its whole dispatch). *)
 Theorem C15_message_key : forall (s : bytes) (e : perr) (at_ : option N),
-  key_head_b s = true -> parse_key s = PErr e at_ -> e_cause e <> None \/ e_ctx e = true.
+  parse_key s = PErr e at_ -> e_cause e <> None \/ e_ctx e = true.
 Proof. exact key_message. Qed.
 Print Assumptions C15_message_key.
-
-(* The side condition is exact — the finding C15-empty-message-key-start: an input that is empty
-   or starts with any other byte is rejected at offset 0 with an EMPTY message (simple_key has no
-   context of its own; neither `peek(any)` nor `take_while(1.., UNQUOTED_CHAR)` attaches one). *)
-Theorem C15_message_key_empty : forall (s : bytes),
-  key_head_b s = false -> parse_key s = PErr err0 (Some 0%N).
-Proof. exact key_message_empty. Qed.
-Print Assumptions C15_message_key_empty.
-
-(* Witnesses: the empty input ... *)
-Theorem C15_message_key_refuted :
-  exists s e at_, parse_key s = PErr e at_ /\ e_cause e = None /\ e_ctx e = false
-                  /\ bare_cr_near_o s at_ = false.
-Proof. exact key_message_refuted. Qed.
-Print Assumptions C15_message_key_refuted.
-
-(* ... and the one-byte input `!`. *)
-Theorem C15_message_key_refuted_bang :
-  exists s e at_, parse_key s = PErr e at_ /\ e_cause e = None /\ e_ctx e = false
-                  /\ bare_cr_near_o s at_ = false /\ s <> [].
-Proof. exact key_message_refuted_bang. Qed.
-Print Assumptions C15_message_key_refuted_bang.
 
 (* All of it for one rejected document. *)
 Theorem C15_located : forall (s : bytes) (e : perr) (at_ : N),
@@ -210,7 +187,7 @@ Proof. vm_compute. repeat split. Qed.
 
 Example C15_ex_key_trailing :
   let s := [x61; x20; x62] in
-  parse_key s = PErr (mkErr None true) (Some 1%N) /\ key_head_b s = true
+  parse_key s = PErr (mkErr None true) (Some 1%N)
   /\ lift_outcome (parse_all simple_key s) = PErr err0 (Some 1%N).
 Proof. vm_compute. repeat split. Qed.
 
@@ -220,9 +197,15 @@ Example C15_ex_key_path_trailing :
   /\ lift_outcome (parse_all key_ s) = PErr err0 (Some 4%N).
 Proof. vm_compute. repeat split. Qed.
 
-(* an unterminated basic string as a key meets key_head_b and is rejected with a context from
-   inside simple_key (not from end_of_input) *)
+(* an unterminated basic string as a key is rejected with a context from inside simple_key (not from
+   end_of_input) *)
 Example C15_ex_key_unterminated :
-  let s := [x22; x61] in
-  key_head_b s = true /\ parse_key s = PErr (mkErr None true) (Some 2%N).
-Proof. vm_compute. repeat split. Qed.
+  parse_key [x22; x61] = PErr (mkErr None true) (Some 2%N).
+Proof. vm_compute. reflexivity. Qed.
+
+(* regression: the witnesses of the repaired finding C15-empty-message-key-start (Key::from_str of the
+   empty input, of `!`, of a lone CR had an EMPTY message: e_ctx = false) now carry the context *)
+Example C15_ex_key_start_repaired :
+  parse_key [] = PErr (mkErr None true) (Some 0%N) /\ parse_key [x21] = PErr (mkErr None true) (Some 0%N)
+  /\ parse_key [x0d] = PErr (mkErr None true) (Some 0%N).
+Proof. exact key_message_former_witnesses. Qed.
